@@ -106,12 +106,12 @@ mut('m13_removeclient_no_subdec','''	if r.reporter != nil {
 mut('m14_startfail_no_teardown','''			for _, sub := range trig.snapshotSubscriptions() {
 				sub.writeError(r.errorFormatter, sub.ctx, err, sub.resolve.Response)
 			}
-			r.doneTriggerFromUpdater(triggerID)
+			r.doneTriggerFromUpdater(triggerID, trig)
 			return''','''			for _, sub := range trig.snapshotSubscriptions() {
 				sub.writeError(r.errorFormatter, sub.ctx, err, sub.resolve.Response)
 			}
 			if len(trig.snapshotSubscriptions()) != 2 {
-				r.doneTriggerFromUpdater(triggerID)
+				r.doneTriggerFromUpdater(triggerID, trig)
 			}
 			return''')
 mut('m17_done_skips_close','''	r.mu.Unlock()
@@ -131,4 +131,56 @@ mut('m17_done_skips_close','''	r.mu.Unlock()
 }
 
 // handleTriggerComplete''')
+# reverts of the three repairs (commits 64a5f3b, 96fa2bc, 9ce7274)
+mut('mA_revert_complete_recheck','''func (s *subscriptionState) complete() {
+	s.writeMu.Lock()
+	defer s.writeMu.Unlock()
+	if s.removed.Load() {
+		return
+	}
+	s.writer.Complete()''','''func (s *subscriptionState) complete() {
+	s.writeMu.Lock()
+	defer s.writeMu.Unlock()
+	s.writer.Complete()''')
+mut('mA2_revert_error_recheck','''func (s *subscriptionState) error(data []byte) {
+	s.writeMu.Lock()
+	defer s.writeMu.Unlock()
+	if s.removed.Load() {
+		return
+	}
+	s.writer.Error(data)''','''func (s *subscriptionState) error(data []byte) {
+	s.writeMu.Lock()
+	defer s.writeMu.Unlock()
+	s.writer.Error(data)''')
+# B: back to lookup by id, then store and report outside r.mu (the yield stays where it is now: at the top)
+mut('mB_revert_init_lookup_then_store','''	r.mu.Lock()
+	defer r.mu.Unlock()
+	if cur, ok := r.triggers[triggerID]; !ok || cur != trig {
+		return
+	}
+	trig.initialized.Store(true)''','''	trig, ok := r.getTrigger(triggerID)
+	if !ok {
+		return
+	}
+	trig.initialized.Store(true)''')
+# B2: instance check kept, but store and report after the lock was released (the original gap, without id confusion)
+mut('mB2_init_store_outside_lock','''	r.mu.Lock()
+	defer r.mu.Unlock()
+	if cur, ok := r.triggers[triggerID]; !ok || cur != trig {
+		return
+	}
+	trig.initialized.Store(true)''','''	r.mu.Lock()
+	cur, ok := r.triggers[triggerID]
+	r.mu.Unlock()
+	if !ok || cur != trig {
+		return
+	}
+	trig.initialized.Store(true)''')
+mut('mC_revert_done_instance_check','''	if cur, ok := r.triggers[triggerID]; ok && cur != trig {
+		// A new trigger with the same id (same input and headers) was registered after ours
+		// ended: it is not ours to tear down.
+		r.mu.Unlock()
+		return
+	}
+	res := r.detachTriggerLocked(triggerID)''','''	res := r.detachTriggerLocked(triggerID)''')
 print(sorted(os.listdir('/tmp/c12-c13-mutants')))
